@@ -424,6 +424,24 @@ def discharge_by_guard(p, s):
             if c and c.get("kind") == "int" and c.get("value") != -1:
                 return "constant divisor %s" % c.get("value")
             return None
+        if k == "Overflow(Add)":
+            # (y - 1) + 1: the addend restores a value that existed; x's dominating definition is a checked `_ - 1`
+            a, b = s.t["ops"]
+            c = b.get("const")
+            l = _local_of(a)
+            if c and c.get("kind") == "int" and c.get("value") == 1 and l is not None:
+                l = _root_local(fn, l)
+                ds = [d for d in fn.defs(l) if not d[0]]
+                decs = []
+                for d in ds:
+                    e = deep_strip(fn._rvalue(d[4], frozenset(), 12, d[1])) if d[3] == "rv" else None
+                    if e is not None and e[0] == "field" and e[2] == "0":
+                        e = deep_strip(e[1])
+                    if e is not None and e[0] == "bin" and e[1].replace("WithOverflow", "") == "Sub" and deep_strip(e[3]) == ("const", "int", 1):
+                        decs.append(d)
+                for d in decs:
+                    if fn.dominates(d[1], s.block) and all(o is d or not fn.can_reach(o[1], s.block, avoid={d[1]}) or o[1] == d[1] for o in ds):
+                        return "the operand was just computed as `_ - 1` (checked) on every path: adding 1 restores a representable value"
         if k.startswith("Overflow("):
             a, b = s.t["ops"]
             ca, cb = a.get("const"), b.get("const")
